@@ -19,6 +19,9 @@ structure St where
   ext : CW String := ⟨[]⟩
   chg : CW String := ⟨[]⟩
   locked : Bool := false
+  -- multi-account bip44: index 2*account + chain
+  mref : Array (Array String) := #[]
+  mcw : Array (CW String) := #[]
 
 def field (pre : String) (ws : List String) : String :=
   match ws.find? (·.startsWith pre) with
@@ -40,8 +43,51 @@ def view (s : St) : String :=
 /-- which of the n scanned addresses (reference indexes base..base+n-1) are active -/
 def activeList (set : List Nat) (base n : Nat) : List Bool := (List.range n).map fun j => set.contains (base + j)
 
+/-! ### multi-account bip44: every (account, chain) is its own index-derived chain -/
+
+def mview (s : St) : String :=
+  " ".intercalate ((List.range 4).map fun k => s!"a{k / 2}{k % 2}={join ((s.mcw.getD k ⟨[]⟩).entries)}")
+
+def mstep (s : St) (ws : List String) (impl : String) : St × String × Verdict :=
+  let nat (x : String) : Nat := x.toNat?.getD 0
+  let setOf (x : String) : List Nat := (items x).map nat
+  match ws with
+  | ["resetm", _, _] =>
+      let iw := impl.splitOn " "
+      let refs := #[(items (field "r00=" iw)).toArray, (items (field "r01=" iw)).toArray,
+                    (items (field "r10=" iw)).toArray, (items (field "r11=" iw)).toArray]
+      let cw := #[cgen (childOf (refs.getD 0 #[])) ⟨[]⟩ 1, cgen (childOf (refs.getD 1 #[])) ⟨[]⟩ 1, (⟨[]⟩ : CW String), ⟨[]⟩]
+      let s' : St := { mref := refs, mcw := cw }
+      (s', if impl.endsWith (mview s') then impl else "ok … " ++ mview s', .fail)
+  | ["mgen", a, c, n] =>
+      let k := 2 * nat a + nat c
+      let old := s.mcw.getD k ⟨[]⟩
+      let nw := cgen (childOf (s.mref.getD k #[])) old (nat n)
+      let s' := { s with mcw := s.mcw.setIfInBounds k nw }
+      (s', s!"ok new={join (nw.entries.drop old.entries.length)} {mview s'}", .fail)
+  | ["mscan", n, s00, s01, s10, s11] =>
+      let n := nat n
+      let sets := [setOf s00, setOf s01, setOf s10, setOf s11]
+      -- every chain of every account is scanned; only external addresses are returned, account by account
+      let res := (List.range 4).map fun k =>
+        let old := s.mcw.getD k ⟨[]⟩
+        let act := activeList (sets.getD k []) old.entries.length n
+        let nw := cscan (childOf (s.mref.getD k #[])) old n act
+        let ret := if n = 0 then [] else ((List.range n).map fun j => childOf (s.mref.getD k #[]) (old.entries.length + j)).take (keepNum (act.take n))
+        (nw, ret)
+      let s' := { s with mcw := (res.map (·.1)).toArray }
+      let ret := (res.getD 0 (⟨[]⟩, [])).2 ++ (res.getD 2 (⟨[]⟩, [])).2
+      (s', s!"ok new={join ret} {mview s'}", .fail)
+  | ["mscanfail", n] => (s, (if nat n = 0 then "ok new=- " else "err ") ++ mview s, .fail)
+  | ["mreload"] => (s, "ok " ++ mview s, .fail)
+  | ["mlock"] => (s, "ok " ++ mview s, .fail)
+  | ["munlock"] => (s, "ok " ++ mview s, .fail)
+  | ["mverify"] => (s, "ok consistent", .fail)
+  | _ => (s, "bad-op", .unknown)
+
 def step (s : St) (op impl : String) : St × String × Verdict :=
   let ws := op.splitOn " "
+  if (ws.headD "").startsWith "m" || ws.headD "" == "resetm" then mstep s ws impl else
   match ws with
   | ["reset", typ, _, _] =>
       let iw := impl.splitOn " "
